@@ -65,8 +65,16 @@ func c01Profiles(quick bool) []*bworld.Profile {
 	}
 	mixed.MaxAttempts = 3
 	mixed.Cancel = false
+	/* Streams whose pending Read outlives their Connect call and is then
+	handed a chunk (net/http leaves such a Read pending until the client sends
+	more or goes away). */
+	late := base
+	late.Name = "c01-late-chunk"
+	late.LateOut = true
+	late.Starts = []bworld.StartSpec{{Kind: "in", Key: "k", Max: 1}, {Kind: "out", Key: "k", Max: 2}, {Kind: "io", Max: 1}}
+	late.MaxAttempts = 3
 	if quick {
-		return []*bworld.Profile{&uni, &mixed}
+		return []*bworld.Profile{&late, &uni, &mixed}
 	}
 	big := uni
 	big.Name = "c01-uni-4"
@@ -75,7 +83,7 @@ func c01Profiles(quick bool) []*bworld.Profile {
 		bworld.StartSpec{Kind: "out", Key: "K", Max: 1}, bworld.StartSpec{Kind: "io", Max: 1})
 	big.Cancel = false
 	mixed.Cancel = true
-	return []*bworld.Profile{&uni, &mixed, &big}
+	return []*bworld.Profile{&late, &uni, &mixed, &big}
 }
 
 func c01(r *ev.Result, tier string) {
